@@ -200,3 +200,38 @@ pub fn encoding(label: &str) -> &'static Encoding {
 pub fn is_single_byte(enc: &'static Encoding) -> bool {
     enc.is_single_byte()
 }
+
+/// Byte sequences (1 or 2 bytes) that decode cleanly in `enc` but are not what `enc` encodes
+/// the decoded text to: non-canonical forms. Found by search, nothing is hard-coded.
+pub fn noncanonical_sequences(enc: &'static Encoding, limit: usize) -> Vec<Vec<u8>> {
+    let mut out = vec![];
+    if enc == UTF_8 || enc == UTF_16LE || enc == UTF_16BE || enc.output_encoding() != enc {
+        return out;
+    }
+    let mut consider = |seq: &[u8], out: &mut Vec<Vec<u8>>| {
+        if let Ok(text) = ref_decode(enc, seq) {
+            if !text.is_empty() && !text.contains('\n') && !text.contains('\r') {
+                if let Ok(back) = ref_encode(enc, &text) {
+                    if back != seq {
+                        out.push(seq.to_vec());
+                    }
+                }
+            }
+        }
+    };
+    for a in 0x80u16..=0xFF {
+        consider(&[a as u8], &mut out);
+    }
+    if !enc.is_single_byte() {
+        'outer: for a in 0x80u16..=0xFF {
+            for b in 0x30u16..=0xFF {
+                consider(&[a as u8, b as u8], &mut out);
+                if out.len() >= limit {
+                    break 'outer;
+                }
+            }
+        }
+    }
+    out.truncate(limit);
+    out
+}
